@@ -590,6 +590,32 @@ pub fn run_shard(ctx: &mut Ctx) {
         }
         ctx.end_phase();
     } else {
+        // stat() on reader threads while another thread drains the cache: every snapshot must be internally consistent
+        ctx.begin_phase(0.1);
+        let n = if ctx.tier == Tier::Quick { 6 } else { 300 };
+        for _ in 0..n {
+            if !ctx.time_left() {
+                break;
+            }
+            if let Some(vi) = crate::props::seq::c16_concurrent(r.next()) {
+                ctx.out.viol(vi);
+            }
+            ctx.out.count("concurrent_stat_rounds(readers+drainer)", 1);
+        }
+        ctx.end_phase();
+        // a Types instantiation whose payload_size() is the payload's CAPACITY (not invariant under clone())
+        ctx.begin_phase(0.1);
+        let n = if ctx.tier == Tier::Quick { 20 } else { 2000 };
+        for _ in 0..n {
+            if !ctx.time_left() {
+                break;
+            }
+            match crate::props::pvote::capacity_accounting_round(r.next()) {
+                Ok(k) => ctx.out.count("accounting_observations_under_a_capacity_based_payload_size", k),
+                Err(vi) => ctx.out.viol(vi),
+            }
+        }
+        ctx.end_phase();
         // chunks far larger than the cache limits: the boundary jumps over a whole chunk at once
         ctx.begin_phase(0.15);
         let n = if ctx.tier == Tier::Quick { 4 } else { 400 };
